@@ -231,6 +231,18 @@ def own_generator(m, q, a, allow_local_seeded=False):
         if l == 1 and names and ("StepEnv" in ty or "bourse::" in ty) and names[-1] == "rng":
             return True, "the environment's seeded generator self.%s" % ".".join(names)
         return False, "?"
+    if root[0] == "local" and names:
+        # a captured generator read through the closure object (closure spliced into its creator by the unit view):
+        # continue with the captured operand
+        l = root[1]
+        defs = q.ev.def_sites().get(l, [])
+        if len(defs) == 1 and defs[0][0] == "s":
+            st = q.body.blocks[defs[0][1]].stmts[defs[0][2]]
+            from analysis.origin import strip
+            v = strip(q.ev.rvalue(st.rv, (defs[0][1], defs[0][2]))) if st.k == "assign" else ("unk",)
+            if v[0] == "agg" and v[1] == "closure" and len(v) > 4 and len(names) == 1 and names[0] in list(v[4]):
+                op = strip(v[3][list(v[4]).index(names[0])])
+                return own_generator(m, q, op, allow_local_seeded)
     if root[0] == "local" and allow_local_seeded:
         l = root[1]
         defs = q.ev.def_sites().get(l, [])
